@@ -274,3 +274,60 @@ func attemptNatsPublishRefused(env *c13env, c c13case, body []byte) *attempt {
 	a.Reuse.RequestHex = fmt.Sprintf("%x", small)
 	return a
 }
+
+// ---------------------------------------------------------------- adapter, two calls across a stalled send
+
+// attemptAdapterAfterStalledSend: the peer stops taking bytes (Write blocks,
+// or Flush blocks ignoring its context), a first Request times out while its
+// sender is stuck, and then a second, small call (the case's operation) is
+// issued on the same transport during the stall.  Both must be back within
+// their own bound with TIMED_OUT and leave no registration.
+func attemptAdapterAfterStalledSend(c c13case, body []byte) *attempt {
+	st := rig.NewScriptTransport()
+	blk := make(chan struct{})
+	if c.Pattern == "afterstalledwrite" {
+		st.BlockWrite = blk
+	} else {
+		st.BlockFlush = blk
+		st.IgnoreFlushCtx = true
+	}
+	var once sync.Once
+	unblock := func() { once.Do(func() { close(blk) }) }
+	flags := &peerFlags{}
+	st.OnFrame = func([]byte) { flags.markSaw() }
+	tr := frugal.NewAdapterTransport(st)
+	if err := tr.Open(); err != nil {
+		return &attempt{Returned: true, Harness: "open: " + err.Error()}
+	}
+	defer func() {
+		unblock()
+		tr.Close()
+	}()
+	// first call: a large request whose send stalls
+	big := make([]byte, 256*1024)
+	for i := range big {
+		big[i] = body[i%len(body)]
+	}
+	c1 := c
+	c1.Op = "request"
+	fctx1, payload1, want1 := newCtx(c1, big)
+	first := invoke(callSpec{c: c1, tr: tr, fctx: fctx1, payload: payload1, want: want1, flags: flags, release: func() {
+		unblock()
+		flags.markAnswered()
+		st.Feed(respFrame(fctx1.RequestHeaders()["_opid"], big))
+	}})
+	first.RequestHex = fmt.Sprintf("(%d-byte frame)", len(payload1))
+	if !first.Returned {
+		return first // judged as a never-returning call of this case
+	}
+	// second call, during the stall (the first sender is still parked in Write / Flush)
+	fctx, payload, want := newCtx(c, body)
+	a := invoke(callSpec{c: c, tr: tr, fctx: fctx, payload: payload, want: want, flags: flags, release: func() {
+		unblock()
+		flags.markAnswered()
+		st.Feed(respFrame(fctx.RequestHeaders()["_opid"], body))
+	}})
+	a.RequestHex = fmt.Sprintf("%x", payload)
+	a.First = first
+	return a
+}
